@@ -118,6 +118,12 @@ E_ATOMS = [
     ("[principal, User::\"bob\"].contains(resource.owner)", True),
     ("{a: principal.x, b: 1}.b == 1", True),
     ("[principal.x, 1].contains(1)", True),
+    # literals that mix an error-capable element (overflows for positive x) with constants: `can_error` of the whole literal
+    ("[principal.x + 9223372036854775807, 1].contains(1)", True),
+    ("[1, principal.x + 9223372036854775807].contains(1)", True),
+    ("[1, 2, principal.x * 4611686018427387904].containsAny([2])", True),
+    ("{a: principal.x + 9223372036854775807, b: 1}.b == 1", True),
+    ("{a: 1, b: resource.n - 9223372036854775807 - 2}.a == 1", True),
     ("(if principal.x > 0 then principal.x else 0 - principal.x) >= 0", True),
     ("action in Action::\"view\"", False),
     ("action == Action::\"edit\"", False),
